@@ -83,6 +83,8 @@ class EdgeListVectorizer(BaseEstimator, TransformerMixin):
                             )
                         )
                     }
+                else:
+                    self.row_label_dictionary_ = self.row_label_dictionary
                 self.column_label_dictionary_ = self.row_label_dictionary_
             elif self.row_label_dictionary is None:
                 self.column_label_dictionary_ = self.column_label_dictionary
@@ -121,7 +123,7 @@ class EdgeListVectorizer(BaseEstimator, TransformerMixin):
 
         # Get row and column indices for only the edges who have both labels in our dictionary index
         # Don't bother checking if rows are valid if you just constructed the row_label_dictionary from the data
-        if self.row_label_dictionary is None:
+        if self.row_label_dictionary is None and not self.joint_space:
             valid_rows = np.repeat(True, self.edge_list_.shape[0])
         else:
             valid_rows = np.isin(
@@ -129,7 +131,7 @@ class EdgeListVectorizer(BaseEstimator, TransformerMixin):
             )
 
         # Don't bother checking if rows are valid if you just constructed the col_label_dictionary from the data
-        if self.column_label_dictionary is None:
+        if self.column_label_dictionary is None and not self.joint_space:
             valid_cols = np.repeat(True, self.edge_list_.shape[0])
         else:
             valid_cols = np.isin(
